@@ -250,7 +250,11 @@ def run(ctx, prop):
             if b_["ok"] and r_ is not None:
                 for a_ in B.analyse(ctx, rest_u, b_, r_):
                     owner_, m_, _op = B.method_of(rest_u, a_["call"]["iface"], a_["call"]["method"])
-                    if method_classes(rest_u, m_) & set(KNOWN[prop].values()):
+                    secs_u = None
+                    if not a_["pc"].get("optional"):
+                        mw_u = B.model_wire(ctx, rest_u, a_["call"]["iface"], m_, a_["plan"])
+                        secs_u = [int(x) for x in mw_u["sections"].split(",") if x] if mw_u and "sections" in mw_u else None
+                    if method_classes(rest_u, m_, secs_u) & set(KNOWN[prop].values()):
                         continue
                     hist["untyped_calls"] = hist.get("untyped_calls", 0) + 1
                     bad_ = B.refcount_failures(a_)
